@@ -107,7 +107,7 @@ def parse_bare_block(lexer, toplevel=False):
         return expression
     block.add(expression)
     while lexer.matchIf(";", "interpunction"):
-        if not lexer.hasNext():
+        if not lexer.hasNext() or lexer.peekn(1, ")", "interpunction"):
             break
         if lexer.peekn(1, "do", "keyword"):
             expression = parse_block(lexer)
@@ -1053,7 +1053,13 @@ def parse_primary_expr(lexer, unary_minus=False):
         elif token.value == "continue" and token.type == "keyword":
             result = NodeContinue(token.pos)
         elif token.value == "return" and token.type == "keyword":
-            if lexer.peekn(1, ";", "interpunction"):
+            if (
+                not lexer.hasNext()
+                or lexer.peekOne(1, [";", ")"], "interpunction")
+                or lexer.peekOne(
+                    1, ["end", "catch", "finally", "else", "elif"], "keyword"
+                )
+            ):
                 result = NodeReturn(None, token.pos)
             else:
                 result = NodeReturn(parse_expression(lexer), token.pos)
